@@ -80,8 +80,8 @@ type World struct {
 	Funcs    map[int]*argmapper.Func
 	Specs    map[int]*FuncSpec
 	GenCalls int
-	MaxExecs int // runaway guard
-	BodyHook func(fs *FuncSpec) // optional: called at the start of every body (outside the lock)
+	MaxExecs int                  // runaway guard
+	BodyHook func(fs *FuncSpec)   // optional: called at the start of every body (outside the lock)
 	OpTagOf  func() (gid, op int) // optional: goroutine/op attribution
 }
 
@@ -553,15 +553,15 @@ func (w *World) MakeGen(gs *GenSpec) argmapper.ConverterGenFunc {
 
 // Outcome is the observable result of one library operation.
 type Outcome struct {
-	Err       error    `json:"-"`
-	ErrS      string   `json:"err,omitempty"`
-	Panic     string   `json:"panic,omitempty"`
-	Stack     string   `json:"-"`
-	Runaway   bool     `json:"runaway,omitempty"`
-	Len       int      `json:"len"`
-	Outs      []Obs    `json:"outs,omitempty"`
-	Events    []Event  `json:"events,omitempty"`
-	OutsRaw   []interface{} `json:"-"`
+	Err     error         `json:"-"`
+	ErrS    string        `json:"err,omitempty"`
+	Panic   string        `json:"panic,omitempty"`
+	Stack   string        `json:"-"`
+	Runaway bool          `json:"runaway,omitempty"`
+	Len     int           `json:"len"`
+	Outs    []Obs         `json:"outs,omitempty"`
+	Events  []Event       `json:"events,omitempty"`
+	OutsRaw []interface{} `json:"-"`
 }
 
 // EventsSince returns a copy of the events logged from index n on.
